@@ -1,6 +1,7 @@
 package msc
 
 import (
+	"encoding/json"
 	"fmt"
 	"math/big"
 	"strings"
@@ -18,6 +19,12 @@ import (
 // specification's operators in DoubleSignProofs.tla).  The harness converts the inputs to
 // time.Time / time.Duration, calls the code, and converts the returned wait back; the expected
 // verdict and wait are TLC's.
+//
+// Every vector is run in several *representations* of the same instants (time.Time values that
+// denote the same instant but differ in location pointer, in carrying a monotonic clock reading, or
+// in how they were constructed); the set of distinct outcomes is returned and must be the
+// singleton the specification gives.  Fields named in the vector's `zero` set are the zero instant
+// (a timestamp that was never set), again in several representations.
 
 var two60 = new(big.Int).Lsh(big.NewInt(1), 60)
 
@@ -35,12 +42,6 @@ func dsNanos(x int64) *big.Int {
 	e := x - 16*u
 	n := new(big.Int).Mul(big.NewInt(u), two60)
 	return n.Add(n, big.NewInt(e))
-}
-
-func dsTime(x int64) time.Time {
-	n := dsNanos(x)
-	sec, nsec := new(big.Int).DivMod(n, big.NewInt(1000000000), new(big.Int)) // Euclidean: 0 <= nsec < 1e9
-	return time.Unix(sec.Int64(), nsec.Int64())
 }
 
 func dsDuration(x int64) (time.Duration, error) {
@@ -63,6 +64,80 @@ func dsTicks(d time.Duration) interface{} {
 	return u.Int64()*16 + e.Int64()
 }
 
+var dsZone = time.FixedZone("verif+0330", 3*3600+1800)
+
+const dsRepresentations = 6
+
+// dsClock builds the time.Time values of one vector in one representation.
+type dsClock struct {
+	rep    int
+	nowX   int64     // tick value of the vector's `now`
+	origin time.Time // representation 4: the real time.Now() (carries a monotonic reading) stands for `now`
+}
+
+func newDsClock(rep int, nowX int64) *dsClock {
+	return &dsClock{rep: rep, nowX: nowX, origin: time.Now()}
+}
+
+func unixOf(n *big.Int) time.Time {
+	sec, nsec := new(big.Int).DivMod(n, big.NewInt(1000000000), new(big.Int)) // Euclidean: 0 <= nsec < 1e9
+	return time.Unix(sec.Int64(), nsec.Int64())
+}
+
+// at returns the instant denoted by tick value x; field tells the fields of one vector apart
+func (c *dsClock) at(x int64, field int) time.Time {
+	t := unixOf(dsNanos(x))
+	switch c.rep {
+	case 0: // time.Unix: local location
+		return t
+	case 1:
+		return t.UTC()
+	case 2:
+		return t.In(dsZone)
+	case 3: // rebuilt from stored seconds and nanoseconds, monotonic reading stripped
+		return time.Unix(t.Unix(), int64(t.Nanosecond())).Round(0)
+	case 4: // all instants derived from one time.Now(): they carry monotonic clock readings while in range
+		d := new(big.Int).Sub(dsNanos(x), dsNanos(c.nowX))
+		r := c.origin
+		step := big.NewInt(int64(7) << 60)
+		for d.Sign() != 0 {
+			s := new(big.Int).Set(d)
+			if s.CmpAbs(step) > 0 {
+				s.Set(step)
+				if d.Sign() < 0 {
+					s.Neg(s)
+				}
+			}
+			r = r.Add(time.Duration(s.Int64()))
+			d.Sub(d, s)
+		}
+		return r
+	default: // a different representation for every field of the vector
+		switch field % 3 {
+		case 0:
+			return t.UTC()
+		case 1:
+			return t.In(dsZone)
+		}
+		return t
+	}
+}
+
+// zero returns the zero instant (an unset timestamp) in one of its representations
+func (c *dsClock) zero(field int) time.Time {
+	switch (c.rep + field) % 5 {
+	case 0:
+		return time.Time{}
+	case 1:
+		return time.Unix(time.Time{}.Unix(), 0)
+	case 2:
+		return time.Time{}.Local()
+	case 3:
+		return time.Time{}.In(dsZone)
+	}
+	return time.Time{}.UTC()
+}
+
 type dsInst struct{}
 
 func (dsInst) Close()               {}
@@ -70,46 +145,78 @@ func (dsInst) Project() interface{} { return 0 }
 
 func (dsInst) Apply(act map[string]interface{}) (map[string]interface{}, error) {
 	in, _ := act["in"].(map[string]interface{})
-	want, _ := act["res"].(map[string]interface{})
+	wantSet, _ := act["res"].([]interface{})
 	op, _ := act["op"].(string)
 	i64 := func(v interface{}) int64 { f, _ := v.(float64); return int64(f) }
 	thr, err := dsDuration(i64(in["thr"]))
 	if err != nil {
 		return nil, err
 	}
-	now := dsTime(i64(in["now"]))
-	switch {
-	case strings.HasPrefix(op, "synced/"):
-		ts, _ := in["ts"].(map[string]interface{})
-		s := doublesign.SyncStatus{
-			PeersNum:                  int(i64(in["peers"])),
-			Now:                       now,
-			Startup:                   dsTime(i64(ts["synced"])),
-			LastConnected:             dsTime(i64(ts["connected"])),
-			P2PSynced:                 dsTime(i64(ts["synced"])),
-			BecameValidator:           dsTime(i64(ts["validator"])),
-			ExternalSelfEventCreated:  dsTime(i64(ts["created"])),
-			ExternalSelfEventDetected: dsTime(i64(ts["detected"])),
+	waitConstrained := false
+	for _, w := range wantSet {
+		if m, ok := w.(map[string]interface{}); ok {
+			if _, has := m["wait"]; has {
+				waitConstrained = true
+			}
 		}
-		if synced, _ := in["synced"].(bool); !synced {
-			s.P2PSynced = time.Time{} // "P2P sync not finished"
-		}
-		wait, err := doublesign.SyncedToEmit(s, thr)
-		res := map[string]interface{}{"permitted": err == nil}
-		if _, constrained := want["wait"]; constrained {
-			res["wait"] = dsTicks(wait)
-		}
-		return map[string]interface{}{"res": res}, nil
-	case strings.HasPrefix(op, "parallel/"):
-		s := doublesign.SyncStatus{
-			PeersNum:                 1,
-			Now:                      now,
-			Startup:                  dsTime(i64(in["startup"])),
-			ExternalSelfEventCreated: dsTime(i64(in["created"])),
-		}
-		return map[string]interface{}{"res": map[string]interface{}{"parallel": doublesign.DetectParallelInstance(s, thr)}}, nil
 	}
-	return nil, fmt.Errorf("unknown op %q", op)
+	isZero := map[string]bool{}
+	if zs, ok := in["zero"].([]interface{}); ok {
+		for _, z := range zs {
+			isZero[fmt.Sprint(z)] = true
+		}
+	}
+	nowX := i64(in["now"])
+	distinct := map[string]interface{}{}
+	for rep := 0; rep < dsRepresentations; rep++ {
+		c := newDsClock(rep, nowX)
+		get := func(name string, x interface{}, field int) time.Time {
+			if isZero[name] {
+				return c.zero(field)
+			}
+			return c.at(i64(x), field)
+		}
+		var res map[string]interface{}
+		switch {
+		case strings.HasPrefix(op, "synced/"):
+			ts, _ := in["ts"].(map[string]interface{})
+			s := doublesign.SyncStatus{
+				PeersNum:                  int(i64(in["peers"])),
+				Now:                       c.at(nowX, 0),
+				Startup:                   get("startup", ts["synced"], 1),
+				LastConnected:             get("connected", ts["connected"], 2),
+				P2PSynced:                 get("synced", ts["synced"], 3),
+				BecameValidator:           get("validator", ts["validator"], 4),
+				ExternalSelfEventCreated:  get("created", ts["created"], 5),
+				ExternalSelfEventDetected: get("detected", ts["detected"], 6),
+			}
+			if synced, _ := in["synced"].(bool); !synced {
+				s.P2PSynced = c.zero(3) // "P2P sync not finished": the timestamp was never set
+			}
+			wait, err := doublesign.SyncedToEmit(s, thr)
+			res = map[string]interface{}{"permitted": err == nil}
+			if waitConstrained {
+				res["wait"] = dsTicks(wait)
+			}
+		case strings.HasPrefix(op, "parallel/"):
+			s := doublesign.SyncStatus{
+				PeersNum:                 1,
+				Now:                      c.at(nowX, 0),
+				Startup:                  get("startup", in["startup"], 1),
+				ExternalSelfEventCreated: get("created", in["created"], 2),
+			}
+			res = map[string]interface{}{"parallel": doublesign.DetectParallelInstance(s, thr)}
+		default:
+			return nil, fmt.Errorf("unknown op %q", op)
+		}
+		b, _ := json.Marshal(res)
+		distinct[string(b)] = res
+	}
+	out := make(replay.Set, 0, len(distinct))
+	for _, r := range distinct {
+		out = append(out, r)
+	}
+	return map[string]interface{}{"res": out}, nil
 }
 
 func DoubleSignAdapters() []replay.Adapter {
